@@ -273,6 +273,10 @@ def rule_rt2(prog, G, prop=PROP, rid='R-RT-2'):
                     'transformer %s has no such callback: a raw parse tree '
                     'is returned instead of a formula' % (
                         lang, name, g.transformer.short())))
+            elif cb[0] == 'function' and prop != PROP:
+                # builds a formula through a package function: relevant to
+                # the round trip (C09) only
+                r.ok()
             elif cb[0] == 'function':
                 r.fail(Finding(
                     prop, rid, cb[-1].where(), cb[-1].short(),
